@@ -255,8 +255,6 @@ Proof.
 Qed.
 
 (* ---- an oversize error is never spurious ---- *)
-Lemma Ok_inj {A} (a b : A) : Ok a = Ok b -> a = b.
-Proof. congruence. Qed.
 
 Definition unrepresentable (b : builder) : Prop :=
   (exists x, In x (wd_of b) /\ bc_max_pdu < 30 + Nlri.compose_len x) \/
@@ -267,7 +265,7 @@ Definition unrepresentable (b : builder) : Prop :=
 Lemma attr_clen_le v : attr_clen v <= 4 + v.
 Proof. unfold attr_clen, header_len. destruct (Nat.ltb 255 v); lia. Qed.
 
-Lemma consts_ok : bc_wd_threshold + 30 <= bc_max_pdu /\ bc_limit_fixed = 31 /\ bc_limit_fixed <= bc_max_pdu.
+Lemma consts_ok : bc_wd_threshold + 30 <= bc_max_pdu /\ 31 <= bc_limit_fixed /\ bc_limit_fixed <= bc_max_pdu.
 Proof. vm_compute. repeat split; repeat constructor. Qed.
 
 Lemma plan_wd_fits b x w batch rem n :
